@@ -8,47 +8,47 @@ ROOT = "/verif"
 CHECKS = {
     "C13": ("loopmc", "model_checking",
             "typed Vec/tuple lists of distinguishable probe commands executed through the real Client::command_list under the controlled scheduler (all schedules within a deviation bound), framing and positional pairing checked against the simulated server's transcript; raw list rendering enumerated over every build recipe",
-            "Typed Vec lists of length 0..5 and tuples of every arity 1..8 of commands whose reply identifies their position are run through the real client (second caller, and for three shapes a notification and a split, all schedules within the bound; short transport writes; a cancelled list followed by a tuple list; hostile-looking command names): N>=2 written as one command_list_ok_begin..command_list_end block with the N lines in order, N=1 as the bare line, N=0 nothing written and an empty result, i-th typed result decoded from the i-th frame, Vec results of exactly N elements; raw lists of 1..6 commands built by every mix of new/command/add/extend render to exactly N+2 (or 1) lines.",
+            "Typed Vec lists of length 0..5 and tuples of every arity 1..8 of commands whose reply identifies their position are run through the real client (second caller, and for three shapes a notification and a split, all schedules within the bound; short transport writes; a cancelled list followed by a tuple list; a tuple mixing probes with commands whose replies carry binary parts; empty lists around a connection end; hostile-looking command names): N>=2 written as one command_list_ok_begin..command_list_end block with the N lines in order, N=1 as the bare line, N=0 nothing written and an empty result, i-th typed result decoded from the i-th frame, Vec results of exactly N elements; raw lists of 1..6 commands built by every mix of new/command/add/extend render to exactly N+2 (or 1) lines.",
             "Trusted: mpdref::server's list handling (list_OK per command).",
             "DESIGN.md section 4 C13"),
     "C17": ("loopmc", "model_checking",
             "exhaustive parameter grid (size x chunk limit x source x MIME x every ACK code) executed through the real Client::album_art against a simulated server holding the picture, plus schedule exploration with a second caller and notifications between chunk requests",
-            "Every grid point is run on the real client: returned bytes and MIME equal the stored picture, request lines are readpicture|albumart <uri> <offset> with offsets = bytes returned so far and exactly ceil(size/limit) (min 1) requests, fallback to albumart exactly on an empty reply or ACK 5, None when neither has data, any other ACK returned with its code; two grid points under all schedules within the deviation bound with interleaved caller and notification; chunk sizes that vary between replies and short final pieces, a caller changing binarylimit between chunks, and two concurrent loads of different URIs (offsets follow the bytes actually returned, per URI).",
+            "Every grid point is run on the real client: returned bytes and MIME equal the stored picture, request lines are readpicture|albumart <uri> <offset> with offsets = bytes returned so far and exactly ceil(size/limit) (min 1) requests, fallback to albumart exactly on an empty reply or ACK 5, None when neither has data, any other ACK returned with its code; two grid points under all schedules within the deviation bound with interleaved caller and notification; chunk sizes that vary between replies and short final pieces, a caller changing binarylimit between chunks, two concurrent loads of different URIs (offsets follow the bytes actually returned, per URI), a server that fails after k chunks, and a MIME type given with the first chunk only.",
             "Trusted: mpdref::server's readpicture/albumart model.",
             "DESIGN.md section 4 C17"),
     "C18": ("loopmc+segmc", "model_checking",
             "protocol half: exhaustive enumeration of greetings x truncations x all segmentations on both connection flavours against a reference greeting grammar; client half: all splits of greeting and password verdict, every verdict (OK, 6 ACK codes, close at every offset, garbage, read error) explored on the real Client::connect* under the controlled scheduler",
-            "Greetings `OK MPD `+version over 7 byte classes up to length 3/4, wrong prefixes and overlong versions, truncated at every position, under all compositions (<=13/16 bytes) or <=2 cuts: success iff valid, version verbatim, InvalidMessage for malformed, UnexpectedEof for proper prefixes. Client: first line is `password <pw>` (tokenized), no idle before the verdict was read, IncorrectPassword on any ACK with nothing further written, protocol error on close/garbage/read error inside the handshake, ordinary legal session afterwards.",
+            "Greetings `OK MPD `+version over 7 byte classes up to length 3/4, wrong prefixes and overlong versions, truncated at every position, under all compositions (<=13/16 bytes) or <=2 cuts: success iff valid, version verbatim, InvalidMessage for malformed, UnexpectedEof for proper prefixes. Client: first line is `password <pw>` (tokenized; ten edge passwords: empty, blank-edged, tab, non-ASCII spaces, quote, backslash, CR), no idle before the verdict was read, IncorrectPassword on any ACK with nothing further written, protocol error on close/garbage/read error inside the handshake, ordinary legal session afterwards.",
             "Trusted: mpdref::wire::ref_greeting, mpdref::server's password model; the greeting is never delivered in the same read as later bytes.",
             "DESIGN.md section 4 C18"),
     "C14": ("enum", "model_checking",
             "bounded-exhaustive enumeration of abstract song listings (every ordered selection of <=3/4 attribute/tag lines per song; all listings of <=3/4 entries over 10 entry kinds) encoded, parsed by the real parser and decoded by every song-listing command, compared with the abstract listing",
-            "One-song listings with every ordered selection of <=3/4 of 19 line kinds (both orders of Time/duration, two Range forms, repeated tags with different and with identical values, values with leading/trailing blanks, empty values, unknown tags), every tag name of the protocol's table, every millisecond duration in a window and all listings of 0..3/4 entries over 6 song shapes plus directory / playlist entries with and without their own Last-Modified, decoded by playlistinfo, playlistinfo RANGE, currentsong, find, listplaylistinfo, listallinfo: one song per file entry in order with exactly the listed URL, duration (duration wins over Time), position/id/priority/range, format, last-modified and per-tag value lists.",
+            "One-song listings with every ordered selection of <=3/4 of 19 line kinds (both orders of Time/duration, two Range forms, repeated tags with different and with identical values, values with leading/trailing blanks, empty values, unknown tags), every tag name of the protocol's table in canonical, lower and upper case, every millisecond duration in a window and 18 other decimal spellings and all listings of 0..3/4 entries over 6 song shapes plus directory / playlist entries with and without their own Last-Modified, decoded by playlistinfo, playlistinfo RANGE, currentsong, find, listplaylistinfo, listallinfo: one song per file entry in order with exactly the listed URL, duration (duration wins over Time), position/id/priority/range, format, last-modified and per-tag value lists.",
             "Trusted: the abstract listing model and its encoder; empty URLs (never sent by MPD) are outside the domain.",
             "DESIGN.md section 4 C14"),
     "C15": ("enum", "model_checking",
             "bounded-exhaustive enumeration of every constructor/builder path of every predefined command x boundary parameter values; the written line is split by the tokenizer port and interpreted semantically against a table written from the protocol reference",
-            "Every case (count in the evidence) over 66 command words: integers {0,1,2,MAX-1,MAX}, every pair of range bounds {unbounded, included, excluded} x {0,1,5,MAX-1,MAX} incl. empty and inverted ranges (compared as position sets, saturation at MAX accepted), 9 durations around the millisecond rounding points (within 0.5 ms; crossfade floored), all enum variants, every string parameter over 8 strings (blanks, leading blank, quotes, backslash, empty, tab, non-ASCII; compared after tokenizing, so a typed command that escapes by hand is caught), volumes 0..255 (clamped into 0..100): command word, argument count, positions and meaning must match the table.",
-            "Trusted: the expectation table (my reading of the MPD protocol reference) and mpdref::tokenizer.",
+            "Every case (count in the evidence) over 66 command words: integers {0,1,2,MAX-1,MAX}, every pair of range bounds {unbounded, included, excluded} x {0,1,5,MAX-1,MAX} incl. empty and inverted ranges (compared as position sets, saturation at MAX accepted), 14 durations around the millisecond rounding points and beyond f32's resolution (within 0.5 ms; crossfade floored), all enum variants, every overwriting builder setter called twice and builders rendered / modified (directly and through clones) / rendered again, every string parameter over 8 strings (blanks, leading blank, quotes, backslash, empty, tab, non-ASCII; compared after tokenizing, so a typed command that escapes by hand is caught), volumes 0..255 (clamped into 0..100): command word, argument count, positions and meaning must match the table.",
+            "Trusted: the expectation table (my reading of the MPD protocol reference; where it documents two equivalent requests both are accepted) and mpdref::tokenizer.",
             "DESIGN.md section 4 C15"),
     "C16": ("enum", "model_checking",
             "bounded-exhaustive enumeration of abstract replies per kind (status: all 2048 optional-field subsets, orders, boundary and enum values, out-of-domain spellings; stats, count, grouped count, list, grouped list, listplaylists, stickers, channels, messages, tagtypes, update, replay gain) decoded by the real commands and compared field by field",
-            "Every abstract reply is written with the protocol's field names (updating_db, legacy time: elapsed:total), parsed by the real parser and decoded; each decoded field must equal the value sent (durations to f64 representation error over a millisecond sweep), Option fields must be Some iff sent, out-of-domain values (incl. values that wrap to a plausible number in a narrower type) must give Err, never another value; grouped counts and lists with empty and edge-blank keys/values.",
+            "Every abstract reply is written with the protocol's field names (updating_db, legacy time: elapsed:total), parsed by the real parser and decoded; each decoded field must equal the value sent (durations to f64 representation error over a millisecond sweep), Option fields must be Some iff sent, out-of-domain values (incl. values that wrap to a plausible number in a narrower type, and malformed legacy time values) must give Err, never another value; grouped counts and lists with empty and edge-blank keys/values.",
             "Trusted: the abstract reply models written from MPD's handle_status / protocol reference; non-Option struct fields default when omitted.",
             "DESIGN.md section 4 C16"),
     "C12": ("enum", "model_checking",
             "bounded-exhaustive enumeration of server replies per typed decoder (raw field lists over key x boundary-value pools; valid base reply with all single edits and pairs of edits; every frame count for typed lists) pushed through the real parser and converted under catch_unwind, accessors driven; two builds (default, chrono)",
-            "For each of 28 typed decoders and for Vec/tuple command lists: every field list of length <=2 over the decoder's keys (+unrelated/tag/case-variant keys) x a pool of 45 boundary spellings (empty, signs, edge blanks, 255/256, 2^32, 2^64-1, 2^64, 1e19/1e20/1e400, nan/inf, overlong and odd decimals, ranges, timestamps valid and invalid, non-ASCII), a valid base reply with every single edit (replace, delete, duplicate, insert at every position) and pairs of edits, every frame count 0..N+1, and field names outside the tag alphabet through the parser; conversion and every public accessor/iterator of the result must yield a value or a TypedResponseError, never a panic; run with default features and with chrono.",
+            "For each of 28 typed decoders and for Vec/tuple command lists: every field list of length <=2 over the decoder's keys (+unrelated/tag/case-variant keys) x a pool of 58 boundary spellings (empty, signs, edge blanks, 255/256, 2^32, 2^64-1, 2^64, 1e19/1e20/1e400, nan/inf, overlong and odd decimals, ranges, timestamps valid, out-of-range and calendar-invalid, multi-byte text around separators), a valid base reply with every single edit (replace, delete, duplicate, insert at every position) and pairs of edits, every frame count 0..N+1, and field names outside the tag alphabet through the parser; conversion and every public accessor/iterator of the result must yield a value or a TypedResponseError, never a panic; run with default features and with chrono.",
             "Trusted: catch_unwind sees every panic (panic=unwind build, overflow checks on). The value pool is a class alphabet, not all strings.",
             "DESIGN.md section 4 C12"),
     "C19": ("enum", "model_checking",
             "explicit exploration of every operation sequence (get/take_binary) up to depth 5/6 on every frame of a bounded family built by the real parser, all observers, all next/next_back iteration patterns and the positional/consuming iterator adaptors compared with a Vec-based model after every step (no state merging)",
-            "242 frames (all key sequences of length 0..4 over {a, A, b}, with/without binary) x every sequence of <=5/6 operations from {get(a), get(A), get(b), get(missing), take_binary}; after every step find/fields_len/is_empty/has_binary/binary/clone and fields(), &frame, into_iter() under every front/back pattern incl. IntoIter::take_binary, and nth/nth_back/last/count/size_hint/skip/step_by/rev called on the iterator types themselves; responses with 0..3 frames +- error under every front/back pattern with exact size hints, successful_frames, is_error, into_single_frame.",
+            "363 frames (all key sequences of length 0..4 over {a, A, b}; no, ordinary and zero-length binary part) x every sequence of <=5/6 operations from {get(a), get(A), get(b), get(missing), take_binary}; after every step find/fields_len/is_empty/has_binary/binary/clone and fields(), &frame, into_iter() under every front/back pattern incl. IntoIter::take_binary, and nth/nth_back/last/count/size_hint/skip/step_by/rev called on the iterator types themselves; responses with 0..3 frames +- error (incl. partial output before the error) under every front/back pattern with exact size hints, successful_frames, is_error, into_single_frame.",
             "Trusted: the Vec<Option<(key,value)>> + Option<binary> model.",
             "DESIGN.md sections 3.3, 4 C19"),
     "C20": ("enum", "model_checking",
             "complete enumeration of the finite domain: all ordered pairs of tag / subsystem values (named variants vs. catch-all in 4 letter cases), all candidate tag strings, all subsystem names sent through the real client",
-            "All ordered pairs over 157 tag values and 71 subsystem values: == iff names equal, cmp = string order of names, equal implies equal Hash under two hashers and interchangeability as HashMap/BTreeMap/HashSet key; Tag::try_from on every candidate string accepts exactly non-empty letters/_/-, maps known names case-insensitively and round-trips; every subsystem name (14 + unknown + wrong-case) delivered as an event carries that name.",
+            "All ordered pairs over 157 tag values and 71 subsystem values: == iff names equal, cmp = string order of names, equal implies equal Hash under two hashers and interchangeability as HashMap/BTreeMap/HashSet key; Tag::try_from on every candidate string (incl. known names with one letter replaced by non-ASCII characters that Unicode case mapping folds onto ASCII) accepts exactly non-empty letters/_/-, maps known names case-insensitively and round-trips; every subsystem name (14 + unknown + wrong-case) delivered as an event carries that name.",
             "Trusted: the two name tables written from the MPD protocol reference.",
             "DESIGN.md section 4 C20"),
     "C07": ("enum", "model_checking",
@@ -62,48 +62,48 @@ CHECKS = {
             "Trusted: mpdref::tokenizer and mpdref::filter as ports of MPD's two unescaping layers (self-tested on the documented examples); special filter types are outside the domain.",
             "DESIGN.md section 4 C11"),
     "C02": ("segmc", "model_checking",
-            "exhaustive enumeration of read segmentations (all compositions for short streams, all <=2/3-cut segmentations, every single cut and boundary-neighbourhood pairs for streams around the 4 KiB buffer and its doublings) x Pending answers x cancellation of the receive future at every await (once and twice) x {blocking, async}; differential oracle against the one-read baseline",
+            "exhaustive enumeration of read segmentations (all compositions for short streams, all <=2/3-cut segmentations, every single cut and boundary-neighbourhood pairs for streams around the 4 KiB buffer and its doublings) x Pending answers x cancellation of the receive future at every await (once, twice, and followed by a send) x {blocking, async}; differential oracle against the one-read baseline",
             "For every byte stream of the pool (well-formed grammar streams, all truncations and single-byte corruptions of 8 two-response streams, long responses whose boundaries sit at 4096/8192/16384 +-1, binary payloads of 4000-8300 bytes) every segmentation of the stated sets is replayed on the real Connection and AsyncConnection by a scripted reader; the sequence of responses and the terminal outcome must equal the one-read baseline and agree between the flavours.",
             "Trusted: nothing but the scripted reader (differential oracle). The greeting is delivered in its own read (a conforming server speaks only when asked).",
             "DESIGN.md sections 3.2, 4 C02"),
     "C03": ("segmc", "model_checking",
             "bounded-exhaustive enumeration of abstract responses (small-scope grammar) encoded by an independent encoder, decoded by the real connections under exhaustive segmentation sets",
-            "Every abstract response of the bounded grammar (field-level exhaustive singles, list/error forms over representative frames, sequences of responses) is serialised by mpdref's encoder and must be decoded to exactly the abstract value, response by response, then a clean end; under all compositions (short) / <=2-3 cuts (medium) / single cuts + chunk sizes (long binary), both flavours.",
+            "Every abstract response of the bounded grammar (field-level exhaustive singles, list/error forms over representative frames, sequences of responses) is serialised by mpdref's encoder and must be decoded to exactly the abstract value, response by response, then a clean end; under all compositions (short) / <=2-3 cuts (medium) / single cuts + chunk sizes (long binary, components up to 140000 bytes with responses pipelined behind them), both flavours; for segmentations with 1-2 cuts also with the async receive abandoned at its second read, a command sent, and receive called again.",
             "Trusted: mpdref::wire encoder (cross-checked against the independent line-based reference decoder on every stream).",
             "DESIGN.md sections 3.2, 4 C03"),
     "C09": ("segmc", "model_checking",
-            "exhaustive enumeration of all byte strings over a 10-symbol protocol alphabet up to length 5/6, all single-byte corruptions of grammar streams and numeric edge cases (binary lengths and ACK numbers at 2^32, 2^63, 2^64-1, 2^64, 10^20, 10^40, signed / zero-padded / empty spellings; run in a child process so an allocation abort is a verdict), against a line-based reference decoder; panics caught, reads counted",
+            "exhaustive enumeration of all byte strings over a 10-symbol protocol alphabet up to length 5/6, all single-byte corruptions of grammar streams and numeric edge cases (binary lengths and ACK numbers at 2^32, 2^63, 2^64-1, 2^64, 10^20, 10^40, signed / zero-padded / empty spellings; run in a child process so an allocation abort is a verdict), and large well-formed streams, against a line-based reference decoder; panics caught, reads counted",
             "Every enumerated stream is fed to connect and (after a valid greeting) to receive on both connection flavours under one-read, byte-at-a-time and single-cut segmentations inside catch_unwind with a read cap; delivered responses must equal the reference decoder's, a complete malformed line must give InvalidMessage, an early stop an error, and one more receive() after the terminal result must not panic.",
-            "Trusted: the reference decoder grammar (DESIGN.md 3.5).",
+            "Trusted: the reference decoder grammar (DESIGN.md 3.5); field names with printable ASCII characters outside the library's present alphabet are unspecified (rejecting the line and delivering it verbatim are both accepted).",
             "DESIGN.md sections 3.2, 4 C09"),
     "C10": ("segmc", "fault_enumeration",
-            "exhaustive enumeration of cut positions (crash points) of every grammar stream x segmentations of the surviving prefix x cancellation points of the async receive x {blocking, async}, incl. streams with several binary frames",
+            "exhaustive enumeration of cut positions (crash points) of every grammar stream x segmentations of the surviving prefix x cancellation points of the async receive (also followed by a send) x {blocking, async}, incl. streams with several and with very large binary frames",
             "Every stream of the response grammar is truncated at every byte position and followed by EOF; the responses wholly before the cut must be delivered, then Ok(None) iff the cut is exactly on a response boundary recorded by the encoder, else Err(Io(UnexpectedEof)); every proper prefix of a valid greeting must give UnexpectedEof.",
             "Trusted: response boundaries recorded by mpdref's encoder (cross-checked with the reference decoder).",
             "DESIGN.md sections 3.2, 4 C10"),
     "C01": ("loopmc", "model_checking",
             "stateless model checking of the real tokio client loop under a controlled scheduler: deviation-bounded DFS over event orders by re-execution, oracle = simulated MPD server transcript",
-            "All orders of Issue (both select! poll orders) / Deliver (whole, split at line boundaries, 1 byte, len-1) / Notify / Tick / HalfTick / LongTick / Cancel / StallWrites events, short transport writes, within the deviation bound (micro scenarios: all orders) are executed on the real Client with a paused clock and a scripted transport; every completed request is compared with the reply the simulated server wrote for exactly that request line, list errors with their successful frames (incl. a failing command that printed output before its ACK), per-caller order at the server, and cancellation leaving other callers' replies intact.",
+            "All orders of Issue (both select! poll orders) / Deliver (whole, split at line boundaries, 1 byte, len-1) / Notify / Tick / HalfTick / LongTick / Cancel / StallWrites events, short transport writes, within the deviation bound (micro scenarios: all orders) are executed on the real Client with a paused clock and a scripted transport; every completed request is compared with the reply the simulated server wrote for exactly that request line, list errors with their successful frames (incl. a failing command that printed output before its ACK), per-caller order at the server, and cancellation leaving other callers' replies intact - also for the next request through the same handle (each caller keeps one Client clone for all its requests); directed histories of 90 and 400/1500 changes with the event receiver alive but never polled: every request still resolves.",
             "Trusted: mpdref::server (MPD idle/noidle/command-list rules), the one-event-per-step reduction argued in DESIGN.md section 5 (select! with both branches ready = one of the two serialisations), tokio's channels being linearizable. Bounds: <=3 callers, <=3 requests each, deviation bound reported in the evidence.",
             "DESIGN.md sections 3.1, 4 C01"),
     "C04": ("loopmc", "model_checking",
             "stateless model checking of the real client loop (deviation-bounded DFS by re-execution); oracle = changed: lines written by the simulated server vs. events received",
-            "Notifications at every point of every schedule (server idle: immediate reply; not idle: accumulated, so the next idle is answered with several changed lines), every split of idle replies incl. between and inside lines, requests arriving between the parts, the noidle/changed race, notification storms with the event receiver polled only at the end or dropped, and (for the prefix rule) the fault menu of C08; the event sequence must be a prefix of the server's changed lines at every step and equal to it at drain.",
+            "Notifications (documented, unknown, and unusually spelt names) at every point of every schedule (server idle: immediate reply; not idle: accumulated, so the next idle is answered with several changed lines), every split of idle replies incl. between and inside lines, requests arriving between the parts, the noidle/changed race, callers giving up while their noidle reply carries changes, notification storms with the event receiver polled only at the end or dropped, and (for the prefix rule) the fault menu of C08; the event sequence must be a prefix of the server's changed lines at every step and equal to it at drain.",
             "Trusted: mpdref::server's idle model (fixed subsystem order, flag semantics). Bounds in the evidence (scenarios, deviation bound).",
             "DESIGN.md sections 3.1, 4 C04"),
     "C05": ("loopmc", "model_checking",
             "stateless model checking of the real client loop; legality of every client write judged by the simulated MPD server and a client-view session automaton",
-            "Every write of every explored schedule is judged at the moment it happens: nothing but noidle while the server waits in idle, a request only after everything the server has sent was read (at most one outstanding), exactly one reply consumed between idle and a request, first line idle, idle again within a bounded time after a reply (the delay itself is not prescribed), idling at drain; each scenario's eager-server exploration is cross-checked against a lazy server (server steps as separate events) on client-observable projections.",
+            "Every write of every explored schedule is judged at the moment it happens: nothing but noidle while the server waits in idle, a request only after everything the server has sent was read (at most one outstanding), exactly one reply consumed between idle and a request, first line idle, nothing illegal written when the last handle goes away at any point, idling kept up through 400/1500 changes that nobody collects, idle again within a bounded time after a reply (the delay itself is not prescribed), idling at drain; each scenario's eager-server exploration is cross-checked against a lazy server (server steps as separate events) on client-observable projections.",
             "Trusted: mpdref::server; eager server reduction (DESIGN.md section 5, validated per run by the lazy cross-check); tokio's select! branch order is owned through a seeded runtime.",
             "DESIGN.md sections 3.1, 4 C05"),
     "C08": ("loopmc", "fault_enumeration",
             "exhaustive fault enumeration on the real client loop: one fault of each kind at every step of every schedule within the deviation bound, Close at every offset of the bytes in flight",
-            "For each schedule prefix within the bound one fault (peer close after p more bytes for every p, persistent read error, persistent write error, injected malformed line, all handles dropped, RST-style close) is injected at every step, followed by all continuations within the bound and a drain with a late request; checks: nothing hangs, later requests fail, Ok only for completely delivered matching replies, closed flag, <=1 closing event then end of stream, unclean ends surfaced, transport released.",
+            "For each schedule prefix within the bound one fault (peer close after p more bytes for every p, RST-style close, persistent read error, persistent write error, injected malformed line, malformed bytes without a line end followed by silence, all handles dropped) is injected at every step, followed by all continuations within the bound and a drain with a late request; checks: nothing hangs, later requests fail, Ok only for completely delivered matching replies, closed flag, <=1 closing event then end of stream, unclean ends surfaced - to the caller whose request was in flight where that is beyond doubt (request line reached the server unanswered, or noidle written on behalf of a taken request; no caller gave up) -, transport released.",
             "Trusted: the fault model (writes after a peer close are accepted silently; errors are persistent); mpdref::wire reference decoder decides whether a cut is on a response boundary.",
             "DESIGN.md sections 3.1, 4 C08"),
     "C06": ("enum", "model_checking",
             "bounded-exhaustive enumeration of argument strings over a class alphabet, decoded by a port of MPD's tokenizer",
-            "Every argument string over 12 class representatives up to length 5 (quick) / 7 (thorough), all pairs (len<=2/3) and triples (len<=1), through every string Argument impl (&str, String, Cow borrowed and owned, &String, &&str), Connection::send and CommandList rendering, is rendered by the real code and read back by the reference tokenizer; the space is enumerated completely within the bound.",
+            "Every argument string over 12 class representatives up to length 5 (quick) / 7 (thorough), all pairs (len<=2/3) and triples (len<=1), through every string Argument impl (&str, String, Cow borrowed and owned, &String, &&str), Connection::send, AsyncConnection::send / send_list and CommandList rendering over whole-write and 1-5-byte-per-write transports, and every command name of length <=3/4 over 6 symbols that the builder accepts, is rendered by the real code and read back by the reference tokenizer; the space is enumerated completely within the bound.",
             "Trusted: mpdref::tokenizer as a faithful port of MPD's Tokenizer.cxx/command_process (self-tested on documented examples); the class alphabet has one representative per byte class either side distinguishes.",
             "DESIGN.md section 4 C06"),
 }
